@@ -19,11 +19,16 @@ type verifWriter struct {
 	flushes   int
 	shortWr   bool // Write accepts a symbolic number of bytes and may fail
 	failNext  bool
+	strictCodes bool // WriteHeader panics for codes outside 100..999, like net/http's
 }
 
 func (w *verifWriter) Header() http.Header { return w.hdr }
 
 func (w *verifWriter) WriteHeader(code int) {
+	if w.strictCodes && (code < 100 || code > 999) {
+		// what net/http's own response writer does with such a code
+		panic("invalid WriteHeader code")
+	}
 	w.whCalls++
 	if w.whCalls == 1 {
 		w.whStatus = code
